@@ -82,6 +82,12 @@ def handle (s : HG) (j : Json) : HG × Json :=
   match getStr? j "op" with
   | some "reset" => (HG.empty, respond HG.empty .ok)
   | some "snapshot" => (s, respond s .ok)
+  -- a request whose arguments are outside the model's ID domain (uuid / float / bytes / huge-int IDs …): no answer
+  | some "outside-model" => (s, Json.mkObj [("out", "unmodelled")])
+  -- the inherited Hypergraph mutators a SimplicialComplex refuses (`add_node_to_edge`, `random_edge_shuffle`,
+  -- `double_edge_swap`, `remove_node_from_edge`: "… is not implemented in SimplicialComplex", raised before anything
+  -- is read or written).  Not an `Op` of the model: the state is the argument itself, so `SCInv` needs no theorem.
+  | some "inherited_refused" => (s, respond s (.err .lib))
   | some "has_simplex" =>
     match getIds? j "members" with
     | none => (s, badOp)
